@@ -765,21 +765,30 @@ fn main() {
     // many lines: line counts around the powers of two a size threshold would sit at (lines handed to
     // the workers in blocks, a line budget checked every so often), in one file and cut in two
     {
-        let lens = tu_verif::enumerate::threshold_lengths(run.pick(6, 8));
-        run.bounds.insert("many_lines_phase".into(), json!(format!("line counts {lens:?} x (one file, two files cut in the middle) x max_size {{10, none}} x max_sequences {{none, n - 1}} x 3 modes x num_threads {{0, 1, 2, 3, 16, 17, 255}}")));
+        // (the thread count is a u8: line counts around 2^8 in quick too, there with fewer thread counts)
+        let lens = tu_verif::enumerate::threshold_lengths(8);
+        let quick = run.pick(true, false);
+        run.bounds.insert("many_lines_phase".into(), json!(format!("line counts {lens:?} x (one file, two files cut in the middle) x max_size {{10, none}} x max_sequences {{none, n - 1, n}} x 3 modes x num_threads {{0, 1, 2, 3, 16, 17, 255}}{}", if quick { " (quick, more than 65 lines: one file, {0, 2, 255}, words + chars(3))" } else { "" })));
         let base = units + sus.len() + specs.len().div_ceil(64);
+        run.bounds.insert("many_lines_first_unit".into(), json!(base));
         for (k, n) in lens.iter().enumerate() {
-            if !run.unit((base + k) as u64) {
-                continue;
-            }
             let pat = ["a b", "b", "a-b A", ""];
             let lines: Vec<String> = (0..*n).map(|i| pat[i % pat.len()].to_string()).collect();
-            for files in [vec![lines.clone()], vec![lines[..*n / 2].to_vec(), lines[*n / 2..].to_vec()]] {
-                for max_size in [Some(10), None] {
-                    for max_sequences in [None, Some(*n - 1)] {
+            for (fi, files) in [vec![lines.clone()], vec![lines[..*n / 2].to_vec(), lines[*n / 2..].to_vec()]].into_iter().enumerate() {
+                for (mi, max_size) in [Some(10), None].into_iter().enumerate() {
+                    // (a unit per line count, file layout and max_size: the units are heavy)
+                    if !run.unit((base + 4 * k + 2 * fi + mi) as u64) || (quick && *n > 65 && fi == 1) {
+                        continue;
+                    }
+                    for max_sequences in [None, Some(*n - 1), Some(*n)] {
                         for (use_characters, char_grams) in MODES {
+                            let trimmed = quick && *n > 65;
+                            if trimmed && use_characters && char_grams == 1 {
+                                continue;
+                            }
                             // (also thread counts around a power of two and the largest the parameter type holds)
-                            check_case(&mut run, &mut ctx, &Case { files: files.clone(), max_size, max_sequences, use_characters, char_grams, threads: vec![0, 1, 2, 3, 16, 17, 255], term: vec![] });
+                            let threads = if trimmed { vec![0, 2, 255] } else { vec![0, 1, 2, 3, 16, 17, 255] };
+                            check_case(&mut run, &mut ctx, &Case { files: files.clone(), max_size, max_sequences, use_characters, char_grams, threads, term: vec![] });
                         }
                     }
                 }
@@ -797,7 +806,7 @@ fn main() {
             }
         }
         run.bounds.insert("repeats_phase".into(), json!(format!("{} corpora (every sequence of 2..={} lines from {menu:?}) x max_size {{1, 2}} x {{words, chars(1)}} x num_threads {{0, 1, 2}}", corpora.len(), run.pick(3, 4))));
-        let base = units + sus.len() + specs.len().div_ceil(64) + tu_verif::enumerate::threshold_lengths(run.pick(6, 8)).len() + 200;
+        let base = units + sus.len() + specs.len().div_ceil(64) + 4 * tu_verif::enumerate::threshold_lengths(8).len() + 200;
         for (k, chunk) in corpora.chunks(16).enumerate() {
             if !run.unit((base + k) as u64) {
                 continue;
@@ -815,7 +824,7 @@ fn main() {
     {
         let lines: Vec<String> = strings(&FORMAT_ALPHA, run.pick(3, 4)).into_iter().filter(|l| l.chars().any(|c| c != 'a' && c != ' ')).collect();
         run.bounds.insert("format_phase".into(), json!(format!("{} one-line corpora over {FORMAT_ALPHA:?} with at most {} symbols x 3 modes: creation and save/load round trip", lines.len(), run.pick(3, 4))));
-        let base = units + sus.len() + specs.len().div_ceil(64) + tu_verif::enumerate::threshold_lengths(run.pick(6, 8)).len();
+        let base = units + sus.len() + specs.len().div_ceil(64) + 4 * tu_verif::enumerate::threshold_lengths(8).len();
         for (k, chunk) in lines.chunks(32).enumerate() {
             if !run.unit((base + k) as u64) {
                 continue;
